@@ -149,7 +149,9 @@ def spec(fn=None, *, opaque=False, inline=False):
 
 
 class Invariant:
-    def __init__(self, qualname, loop, fn, types, tagv, hint=None):
+    def __init__(self, qualname, loop, fn, types, tagv, hint=None, pre_hint=None):
+        self.pre_hint = pre_hint
+        self.pre_hint_node = _fundef_of(pre_hint) if pre_hint is not None else None
         self.hint = hint
         self.hint_node = _fundef_of(hint) if hint is not None else None
         self.qualname = qualname
@@ -160,11 +162,11 @@ class Invariant:
         self.tag = tagv
 
 
-def invariant(qualname, loop=0, types=None, tag='aux', hint=None):
+def invariant(qualname, loop=0, types=None, tag='aux', hint=None, pre_hint=None):
     """hint: a function over the locals after the loop body (and their values `old_<name>` at the
     start of the iteration) that calls instances of proved lemmas"""
     def deco(fn):
-        INVARIANTS[(qualname, loop)] = Invariant(qualname, loop, fn, types, tag, hint)
+        INVARIANTS[(qualname, loop)] = Invariant(qualname, loop, fn, types, tag, hint, pre_hint)
         return fn
     return deco
 
